@@ -26,7 +26,7 @@ def main():
             name = "%s-%s" % (prop, m)
             if todo and name not in todo and prop not in todo:
                 continue
-            if name in results and results[name].get("done"):
+            if name in results and results[name].get("done") and (results[name].get("ok") or "cannot parse" not in str(results[name].get("why"))):
                 continue
             md = "/tmp/mut/%s/%s" % (d, m)
             try:
@@ -37,6 +37,14 @@ def main():
             demo = str(meta.get("demo", ""))
             tm = re.search(r"((?:x|store|types|baseapp|crypto)/[\w/]*?\w+_test\.go)", demo)
             rm = re.search(r"-run\s+(\S+)\s+(\./\S+)", demo)
+            if not rm:
+                r1 = re.search(r"-run[\s=]+['\"]?([\w^$|]+)", demo)
+                r2 = re.search(r"go test[^\n]*?\s(\./[\w/.]+)", demo)
+                if r1 and r2:
+                    class _M:
+                        def __init__(s, a, b): s.a, s.b = a, b
+                        def group(s, i): return s.a if i == 1 else s.b
+                    rm = _M(r1.group(1), r2.group(1).rstrip("."))
             if not tm or not rm:
                 results[name] = {"done": True, "ok": False, "why": "cannot parse demo instructions: " + demo[:200]}
                 continue
